@@ -678,6 +678,36 @@ pub fn run(c: &mut Ctx) {
                 c.fail("text of a format string is not the concatenation of its items", &format!("{:?}", fmt));
             }
         }
+        // every public entry point (`format`, `format_with_items` of the four types) is the DelayedFormat
+        // built by hand from the same items: same text, same failure
+        if i % 4 == 0 {
+            use std::fmt::Write;
+            let w = |f: &dyn Fn(&mut String) -> std::fmt::Result| {
+                guard(|| {
+                    let mut s = String::new();
+                    f(&mut s).map(|_| s).map_err(|_| ())
+                })
+            };
+            let ndt = d.and_time(t);
+            let mut forms: Vec<(&'static str, Result<Result<String, ()>, ()>, Result<Result<String, ()>, ()>)> = vec![
+                ("NaiveDate::format", w(&|s| write!(s, "{}", d.format(&fmt))), write_items(&items, Some(d), None, None)),
+                ("NaiveDate::format_with_items", w(&|s| write!(s, "{}", d.format_with_items(items.iter()))), write_items(&items, Some(d), None, None)),
+                ("NaiveTime::format", w(&|s| write!(s, "{}", t.format(&fmt))), write_items(&items, None, Some(t), None)),
+                ("NaiveTime::format_with_items", w(&|s| write!(s, "{}", t.format_with_items(items.iter()))), write_items(&items, None, Some(t), None)),
+                ("NaiveDateTime::format", w(&|s| write!(s, "{}", ndt.format(&fmt))), write_items(&items, Some(d), Some(t), None)),
+                ("NaiveDateTime::format_with_items", w(&|s| write!(s, "{}", ndt.format_with_items(items.iter()))), write_items(&items, Some(d), Some(t), None)),
+            ];
+            if let Some(z) = off.from_local_datetime(&ndt).single() {
+                forms.push(("DateTime::format", w(&|s| write!(s, "{}", z.format(&fmt))), write_items(&items, Some(d), Some(t), Some(off))));
+                forms.push(("DateTime::format_with_items", w(&|s| write!(s, "{}", z.format_with_items(items.iter()))), write_items(&items, Some(d), Some(t), Some(off))));
+            }
+            for (how, got, want) in forms {
+                c.count("entry-point:compared");
+                if got != want {
+                    c.fail("a format entry point differs from DelayedFormat on the same items and fields", &format!("{how} {:?} on {:?} {:?} {:?}: {:?} / {:?}", fmt, d, t, off, got, want));
+                }
+            }
+        }
         // DateTime::format agrees with the DelayedFormat built by hand
         if i % 16 == 0 && dd.is_some() && tt.is_some() && oo.is_some() {
             if let Some(dt) = off.from_local_datetime(&d.and_time(t)).single() {
